@@ -26,6 +26,13 @@ def cmdConstruct (ws : List String) : Option String :=
     | .error e => pure (faultStr e)
     | .ok (.error e, _) => pure ("err " ++ e.name)
     | .ok (.ok (), m') => pure s!"ok {m'.nrows} {m'.ncols} {m'.data.size}"
+  | ["c08", "zreshape", o, r0, c0, r, c] => do
+    -- receiver of zero-sized elements (any element count exists): the header-level decision
+    let o ← parseOrder o; let r0 ← r0.toNat?; let c0 ← c0.toNat?; let r ← r.toNat?; let c ← c.toNat?
+    match reshapeDecision (r0 * c0) ⟨r, c⟩ o with
+    | .error e => pure (faultStr e)
+    | .ok (.error e) => pure ("err " ++ e.name)
+    | .ok (.ok sh) => pure s!"ok {sh.nrows o} {sh.ncols o} {r0 * c0}"
   | ["c08", "map", _kind, esOut, n] => do
     let esOut ← esOut.toNat?; let n ← n.toNat?
     pure (resStr toString (mapDecision esOut n))
